@@ -23,8 +23,9 @@
   * `logFlushed`               = `handle_log_flushed`
   * `applyUpTo`                = environment (state-machine worker) applying committed entries, then
                                  `handle_apply_completed` (responses by index from `pending_write_apply`, Path B drain)
-  * `stepDown`                 = raft.rs `handle_internal_event(BecomeFollower)`: `drain_read_buffer` then the
-                                 LeaderState is dropped (every remaining sender is dropped)
+  * `stepDown`                 = raft.rs `handle_internal_event(BecomeFollower)`: `drain_read_buffer`, then
+                                 `become_follower` (revokes the lease) replaces the role: the LeaderState is dropped
+                                 (every remaining sender is dropped)
   * `fatalInbound`             = `handle_inbound_event(InboundEvent::FatalError)`; `fatalInternal` = raft.rs
                                  `InternalEvent::FatalError` (returns the error, touches no queue)
   * `initNoop`                 = `initiate_noop_commit`; `join` = `handle_join_cluster`
@@ -465,7 +466,9 @@ def stepDown (s : St) : St × Out :=
     answerAll (s.pwa.map (·.2)) .dropped ++
     (s.pca.filterMap fun e => match e.2.2 with | .join id => some (id, Resp.dropped) | .noop => none)
   ({ s with linBuf := [], leaseQ := [], evQ := [], preads := [], pleases := [], propose := [], pcw := [],
-            pwa := [], pca := [], phase := .stepped }, o)
+            pwa := [], pca := [], phase := .stepped,
+            -- `become_follower` revokes the read lease
+            leaseDl := 0, leaseTerm := 0 }, o)
 
 /-- `handle_inbound_event(InboundEvent::FatalError)`: five queues are notified, the rest is left. -/
 def fatalInbound (s : St) : St × Out :=
